@@ -18,6 +18,7 @@ package llm
 // that is itself proved, not assumed (machine arithmetic is modelled exactly).
 
 //@ func EstimateGPULayers
+//@   opt strzero on
 //@   modifies nothing
 //@   opt abstract mod
 //@   assert-at call max #3 : g.g == &gpus[g.i] && 0 <= g.i && g.i < len(gpus)
@@ -105,6 +106,8 @@ package llm
 // estimate for a single GPU, carry no split (NewLlamaServer falls back to the CPU with the same estimate).
 //@   ensures result.Layers == 0 ==> result.TensorSplit == ""
 //@   ensures len(gpus) <= 1 ==> result.TensorSplit == ""
+// helper for assert.2 (index layerCount % j of the output placement is within gpusWithSpace): the count is not negative
+//@   loop 8 invariant layerCount >= 0
 
 // "A model is declared to fit completely only if all of its layers were placed":
 // the two `return true` statements (return #1: no user limit, return #2: num_gpu set).
